@@ -42,27 +42,40 @@ def parseOptNat (s : String) : Option (Option Nat) :=
 def parseList (s : String) : Option (List Nat) :=
   if s == "-" then some [] else (s.splitOn ",").mapM String.toNat?
 
-def flagChars : List Char := "SRAGVCHPQrsdatmpTX".toList
+def flagChars : List Char := "SRAGVCHPQLKrsdatmpTX".toList
 
-def parseBlk (kind flags mf idur ito cdur sdur sto ons : String) : Option Blk := do
+def parseSecond (s : String) : Option (Option (Second × Nat)) :=
+  if s == "-" then some none else
+  match s.splitOn ":" with
+  | [k, dt] => do
+    let k ← (match k with
+      | "callerCancel" => some Second.callerCancel | "supportEnd" => some .supportEnd
+      | "supportFail" => some .supportFail | "abort" => some .abort | "sigterm" => some .sigterm
+      | "shutdown" => some .shutdown | _ => none)
+    let dt ← dt.toNat?
+    pure (some (k, dt))
+  | _ => none
+
+def parseBlk (kind flags mf idur ito cdur sdur sto ons icd : String) : Option Blk := do
   let k ← parseKind kind
   let fl := if flags == "-" then [] else flags.toList
   if !fl.all flagChars.contains then none
   let mf ← parseOptNat mf
   let ons ← parseOptNat ons
   pure { kind := k
-         fStart := fl.contains 'S', fRestore := fl.contains 'R', fInitAsync := fl.contains 'A'
+         -- a start() fault after super().start() is a start() fault
+         fStart := fl.contains 'S' || fl.contains 'L', stopOwnCancel := fl.contains 'K', fRestore := fl.contains 'R', fInitAsync := fl.contains 'A'
          fInitRegular := fl.contains 'G', fInitFromValue := fl.contains 'V', fCalc := fl.contains 'C'
          fHandler := fl.contains 'H', fStop := fl.contains 'P', fStopAsync := fl.contains 'Q'
          mainFailAt := mf
          persistent := fl.contains 'p' || fl.contains 'r', restored := fl.contains 'r', savedTimed := fl.contains 'T', fRestoreCalc := fl.contains 'X', selfInit := fl.contains 's', hasInitdef := fl.contains 'd'
          hasInitAsync := fl.contains 'a', stopData := fl.contains 't', armed := fl.contains 'm'
-         initDur := ← idur.toNat?, initTimeout := ← ito.toNat?, cancelDur := ← cdur.toNat?
+         initDur := ← idur.toNat?, initTimeout := ← ito.toNat?, initCancelDur := ← icd.toNat?, cancelDur := ← cdur.toNat?
          stopDur := ← sdur.toNat?, stopTimeout := ← sto.toNat?, onSuccess := ons }
 
 def Res.render : Res → String
   -- the task sees a CancelledError in both cases
-  | .ok => "ok" | .err => "err" | .timeout => "cancelled" | .cancelled => "cancelled"
+  | .ok => "ok" | .err => "err" | .timeout => "cancelled" | .cancelled => "cancelled" | .pending => "pending"
 
 def Ev.render : Ev → String
   | .start k => s!"start:{k}" | .started k => s!"started:{k}" | .stop k => s!"stop:{k}"
@@ -83,19 +96,19 @@ def joinOr (l : List String) : String := if l.isEmpty then "-" else ",".intercal
 def sortStrings (l : List String) : List String := l.mergeSort (fun a b => a ≤ b)
 
 def handle (s : DState) : List String → DState × String
-  | ["reset", ck, before, time, late, wi, ra, sf, tg, wt] =>
+  | ["reset", ck, before, time, late, wi, ra, sf, tg, wt, sec] =>
     match parseCause ck, parseBool before, time.toNat?, parseBool late, parseBool wi, parseBool ra, parseSFault sf,
-      parseOptNat tg, parseWaiter wt with
-    | some ck, some b, some t, some l, some w, some ra, some sf, some tg, some wt =>
-      ({ cfg := { cause := { kind := ck, before := b, time := t, late := l, raiseAfter := ra, target := tg },
+      parseOptNat tg, parseWaiter wt, parseSecond sec with
+    | some ck, some b, some t, some l, some w, some ra, some sf, some tg, some wt, some sec =>
+      ({ cfg := { cause := { kind := ck, before := b, time := t, late := l, raiseAfter := ra, target := tg, second := sec },
                   waitInit := w, storageFault := sf, waiter := wt },
          res := none }, "ok")
-    | _, _, _, _, _, _, _, _, _ => (s, "bad-op")
+    | _, _, _, _, _, _, _, _, _, _ => (s, "bad-op")
   | ["helperat", t] => match s.res, t.toNat? with
     | some r, some t => (s, if helperAt r.helperSpan t then "alive" else "gone")
     | _, _ => (s, "bad-op")
-  | ["blk", kind, flags, mf, idur, ito, cdur, sdur, sto, ons] =>
-    match parseBlk kind flags mf idur ito cdur sdur sto ons with
+  | ["blk", kind, flags, mf, idur, ito, cdur, sdur, sto, ons, icd] =>
+    match parseBlk kind flags mf idur ito cdur sdur sto ons icd with
     | some b => ({ s with cfg := { s.cfg with blocks := s.cfg.blocks ++ [b] } },
                  s!"ok {s.cfg.blocks.length}")
     | none => (s, "bad-op")
